@@ -150,9 +150,13 @@ type CmdRec struct {
 	Tokens   []string
 	Kind     string // "data","handshake","probe","redirect","skip","protoerr"
 	RelSeq   uint64 // kernel seq when the last reply byte was released
+	RelRound int
+	At       time.Duration // fake time since run start when the node consumed the command
+	RelAt    time.Duration
 	Released bool
 	Dropped  bool // connection died before the reply was fully released
 	AsReplica bool
+	Blocked  bool // queued behind a delayed/stalled reply on the same connection
 }
 
 type BConn struct {
@@ -352,6 +356,11 @@ func (c *Cluster) Feed(bc *BConn, b []byte, seq uint64) {
 		rec.Idx = len(c.Log)
 		c.Log = append(c.Log, rec)
 		bc.Cmds = append(bc.Cmds, rec)
+		for _, pr := range bc.Pending {
+			if pr.HoldFor != 0 || pr.Blocked {
+				rec.Blocked = true // redis answers in order: this reply waits behind a delayed one
+			}
+		}
 		if !rec.NoReply {
 			bc.Pending = append(bc.Pending, rec)
 		}
